@@ -287,29 +287,33 @@ impl Value {
         matches!(self, Self::Identifier(..))
     }
 
+    // a native object that is evaluatable (a request attribute, a let binding) stands for the
+    // value it evaluates to, which may again be such an object: unwrap until it is not.
     pub fn real_type_of(&self, ctx: ScriptContextRef) -> Result<Type, Error> {
-        let t = self.type_of(ctx.clone())?;
-        if let Type::NativeObject(o) = t {
-            if let Some(e) = o.as_evaluatable() {
-                e.type_of(ctx)
-            } else {
-                Ok(Type::NativeObject(o))
+        let mut t = self.type_of(ctx.clone())?;
+        for _ in 0..32 {
+            match &t {
+                Type::NativeObject(o) if o.as_evaluatable().is_some() => {
+                    let next = o.as_evaluatable().unwrap().type_of(ctx.clone())?;
+                    t = next;
+                }
+                _ => break,
             }
-        } else {
-            Ok(t)
         }
+        Ok(t)
     }
     pub fn real_value_of(&self, ctx: ScriptContextRef) -> Result<Value, Error> {
-        let t = self.value_of(ctx.clone())?;
-        if let Self::NativeObject(o) = t {
-            if let Some(e) = o.as_evaluatable() {
-                e.value_of(ctx)
-            } else {
-                Ok(Self::NativeObject(o))
+        let mut v = self.value_of(ctx.clone())?;
+        for _ in 0..32 {
+            match &v {
+                Self::NativeObject(o) if o.as_evaluatable().is_some() => {
+                    let next = o.as_evaluatable().unwrap().value_of(ctx.clone())?;
+                    v = next;
+                }
+                _ => break,
             }
-        } else {
-            Ok(t)
         }
+        Ok(v)
     }
 }
 
